@@ -139,7 +139,15 @@ def run(ctx):
         d = parse_pairs(o, int, vlib.hex_to_float)
         if d is not None:
             born[c] = d
-    md_items = [it for it in items if it["kind"] == "tuples" and it["repr"] in ("vector", "stabilizer")]
+    def draw_nodes(it):
+        """upper bound on the random nodes of the model's Prog term (the exact enumeration of `modeldist` is exponential in it: a
+        stabilizer circuit with five measure_all on 4 qubits ran for 50 minutes under the repository lock with VERIF_SEED=3)"""
+        n, nq = 0, int(it["nq"])
+        for op in it["ops"].split(" ; "):
+            k = op.split(" ", 1)[0]
+            n += nq if k in ("measureall", "peekall", "resetall") else 1 if k in ("measure", "peek", "reset") else 0
+        return n
+    md_items = [it for it in items if it["kind"] == "tuples" and it["repr"] in ("vector", "stabilizer") and draw_nodes(it) <= 12]
     md_out = driver_query(ctx, ["modeldist | %s | %s | %s | %s" % (it["repr"][0], it["nq"], it["fields"][3], it["ops"]) for it in md_items], "modeldist")
     for it, o in zip(md_items, md_out):
         it["modeldist"] = parse_pairs(o, str, vlib.hex_to_float)
@@ -221,8 +229,17 @@ def run(ctx):
         "rule": "circuits of fragment F (no peek/peek_all/reset_all; stabilizer: no reset) generated over all gates (vector) and Clifford "
                 "gates (all three representation choices) and structured Clifford circuits (a parity qubit entangled with several superposed qubits, measured, partners measured in random bases), 20k (quick) / 200k (thorough) shots: histogram vs exact Born distribution "
                 "from the reference semantics; every third circuit also 5k/50k independent 2-shot runs vs the Born multinomial and vs the "
-                "model's exact 2-shot distribution; plus the witnesses of the listed findings. Non-trivial = every statistical test on a "
-                "generated circuit; distinct = distinct (circuit, representation, seed).",
+                "model's exact 2-shot distribution; plus the witnesses of the listed findings. "
+                "EXECUTED AGAIN ON THE SAME OBJECT (`again`, `tuples-again`): feedback circuits (conditional gates that read classical bits BEFORE the "
+                "measurement that writes them in this run, then H/X and measurements into those bits, further conditionals) and random circuits of F "
+                "are executed once (other seed, now and then the other representation, same shot count) and then again on the same Circuit object: "
+                "the histogram of the SECOND run vs the Born distribution; one object executed 5k/50k times with 2 shots vs the Born multinomial. "
+                "USER-DEFINED gates (harness structs that provide only matrix(): cyclic increments Inc2/Inc3/Inc4 and the crate documentation's Mix(a), "
+                "non-symmetric matrices, every apply route the trait default; bare and inside C/Kron/Composite/Loop) applied to superposed/entangled "
+                "qubits under a classical condition (always true or a coin) and unconditionally, vector/auto: histogram vs Born (the reference reads the "
+                "tokens as composites of library gates with the same matrix, Driver/GateParse.lean); `perm`: increments on basis states under a fulfilled "
+                "condition, the only possible register value computed by the harness with integer arithmetic; `wide`: Clifford circuits on 31..130 qubits. "
+                "Non-trivial = every statistical test on a generated circuit; distinct = distinct (circuit, representation, seed).",
         "samples": [{"req": it["req"][:300], "impl": it["ans"][:200]} for it in items[:3]],
         "statistical_tests": tested, "min_p_value_on_F": minp, "model_multinomial_float_checks": theorem_float_checks,
         "B_failures_unlisted": len(fails),
